@@ -158,3 +158,25 @@ Proof.
   rewrite (dist_value fuel _ _ d' SA SB ltac:(lia) Hd').
   now apply common_element_rounded_le.
 Qed.
+
+From GV Require Import Proofs.MetricStrict.
+Open Scope Z_scope.
+
+(** strict decrease of the reported binary32 distance, for |A u B| + 1 <= 2^23 *)
+Lemma C15_add_common_l fuel x A B d d' :
+  sorted A -> sorted B -> ~ In x A -> ~ In x B -> A <> B ->
+  (length A + length B + 2 <= fuel)%nat -> union_count A B + 1 <= 8388608 ->
+  jaccarddist fuel A B = Ok d ->
+  jaccarddist fuel (insert_sorted x A) (insert_sorted x B) = Ok d' ->
+  (B2R d' < B2R d)%R.
+Proof.
+  intros HA HB HxA HxB Hne Hf Hu Hd Hd'.
+  destruct (common_element_ratio_lt x A B HA HB HxA HxB Hne) as [SA [SB _]].
+  assert (LA : length (insert_sorted x A) = S (length A)).
+  { clear. induction A as [|y t IH]; simpl; [reflexivity|]. destruct (x <? y); simpl; congruence. }
+  assert (LB : length (insert_sorted x B) = S (length B)).
+  { clear. induction B as [|y t IH]; simpl; [reflexivity|]. destruct (x <? y); simpl; congruence. }
+  rewrite (dist_value fuel A B d HA HB ltac:(lia) Hd).
+  rewrite (dist_value fuel _ _ d' SA SB ltac:(lia) Hd').
+  now apply common_element_rounded_lt.
+Qed.
